@@ -6,10 +6,16 @@
    derivatives of derivatives expressible).
    PROVED HERE (partial): on the specification side the Hessian of every
    operator-free body is symmetric (mixed partials commute), and the nested
-   operators of the language compute exactly that Hessian entry. *)
+   operators of the language compute exactly that Hessian entry.
+   PROVED HERE (full statement for the all-forward mode sequences of every order):
+   C07_forward_towers_exact - the implementation model (tagged evaluator) of
+   deriv(deriv(...deriv(body)...)) to any depth, with closures over every
+   enclosing level, returns exactly the value of the tower semantics, i.e. the
+   true higher derivative (FwdEval.forward_fragment_correct).  Sequences that
+   contain a reverse-mode operator remain tied by correspondence only. *)
 From Coq Require Import List ZArith.
 Import ListNotations.
-From AG Require Import Tagged Tower Run08 TowerProof.
+From AG Require Import Tagged Tower Run08 TowerProof TaggedProof TowerAlg FwdCorrect FwdStep FwdEval.
 Local Open Scope Z_scope.
 
 Theorem C07_hessian_symmetric_partial :
@@ -24,6 +30,17 @@ Theorem C07_nested_operators_compute_hessian_entry_partial :
     = d2 e ((x, 0), (1, 0)) ((y, 1), (0, 0)).
 Proof. exact nested_deriv_is_d2. Qed.
 Print Assumptions C07_nested_operators_compute_hessian_entry_partial.
+
+Theorem C07_forward_towers_exact :
+  forall fuel e (s : state Z),
+    fwd_only e = true -> -1 <= top Z s -> calm Z s ->
+    match fst (zeval_sup Mono fuel [] e s) with
+    | Val v => eval_spec e 0%nat [] = Some (strip Z v)
+    | Err _ => eval_spec e 0%nat [] = None
+    | OutOfFuel => True
+    end.
+Proof. exact forward_fragment_correct. Qed.
+Print Assumptions C07_forward_towers_exact.
 
 (* rev-over-rev, fwd-over-rev, rev-over-fwd, fwd-over-fwd of F0 = x^6 at 2, and
    the third derivative in two mixed orders, decided by computation on the model *)
